@@ -130,20 +130,45 @@ class NPProxy:
             return tot
         return self._real.vdot(a, b)
 
-    def allclose(self, a, b, **kw):
+    def allclose(self, a, b, rtol=1e-05, atol=1e-08, **kw):
         a = np.asarray(a); b = np.asarray(b)
         if a.dtype == object or b.dtype == object:
             ao = np.asarray(a, dtype=object); bo = np.asarray(b, dtype=object)
             if is_concrete_array(ao) and is_concrete_array(bo):
-                return self._real.allclose(to_numeric(ao), to_numeric(bo), **kw)     # plain numbers: NumPy's own tolerance test
-            d = ao - bo
-            return all(bool(S(x) == 0) for x in np.asarray(d, dtype=object).reshape(-1))
-        return self._real.allclose(a, b, **kw)
+                return self._real.allclose(to_numeric(ao), to_numeric(bo), rtol=rtol, atol=atol, **kw)     # plain numbers: NumPy's own test
+            ao, bo = np.broadcast_arrays(ao, bo)
+            return all(_sym_isclose(x, y, rtol, atol) for x, y in zip(ao.reshape(-1), bo.reshape(-1)))
+        return self._real.allclose(a, b, rtol=rtol, atol=atol, **kw)
 
-    def isclose(self, a, b, **kw):
+    def isclose(self, a, b, rtol=1e-05, atol=1e-08, **kw):
         if isinstance(a, Sym) or isinstance(b, Sym):
-            return bool(S(a) == S(b))
-        return self._real.isclose(a, b, **kw)
+            return _sym_isclose(a, b, rtol, atol)
+        a_ = np.asarray(a); b_ = np.asarray(b)
+        if a_.dtype == object or b_.dtype == object:
+            ao, bo = np.broadcast_arrays(np.asarray(a_, dtype=object), np.asarray(b_, dtype=object))
+            out = np.empty(ao.shape, dtype=bool)
+            for idx in np.ndindex(*ao.shape):
+                out[idx] = _sym_isclose(ao[idx], bo[idx], rtol, atol)
+            return out
+        return self._real.isclose(a, b, rtol=rtol, atol=atol, **kw)
+
+
+def _sym_isclose(x, y, rtol, atol):
+    """NumPy's tolerance test |x - y| <= atol + rtol |y| on symbolic scalars (decided by branching; |.| of a real scalar branches on
+    its sign, of a complex scalar goes through the sqrt contract)"""
+    from fractions import Fraction
+    x = S(x); y = S(y)
+    bound = S(Fraction(atol)) + S(Fraction(rtol)) * abs(y) if not y.is_zero() else S(Fraction(atol))
+    d = x - y
+    if d.is_zero():
+        return True
+    # exactly equal on this path (e.g. an identity that holds modulo assumed hypotheses)?  then certainly close
+    eng = E.current()
+    if eng.known(Atom(d.t, '==')) is True and (d.u is None or eng.known(Atom(d.u, '==')) is True):
+        return True
+    if d.u is None:
+        return bool(d <= bound) and bool(-d <= bound)
+    return bool(d.abs2() <= bound * bound)
 
 
 PROXIED = ['qnumber', 'bond_ops', 'mps', 'mpo', 'operation', 'krylov', 'evolution', 'minimization',
